@@ -253,4 +253,25 @@ example : DownView failC [0, 1] "x" ∧ NobodyLeft failC [0, 1] "x" := ⟨failed
 
 end Converged
 
+/-! ### a graceful leaver that goes down is left — however memberlist words the death
+
+`handleNodeLeave` switches on the member's Serf status only; whether memberlist reports the node gone as
+StateLeft (its own leave notice arrived) or StateDead (the notice was lost and the failure detector
+declared it dead) is not an input of the transition — the model's `nodeLeave` op carries no such
+parameter, and the harness delivers both wordings (`nl … d|l`).  Seeded change C01-e (leaving + StateDead
+⇒ failed) is the broken shape. -/
+
+theorem C01_leaving_down_left (n : Node) (x : Name) (at_ : Nat) (h : statusOf n x = some .leaving) :
+    statusOf (step n (.nodeLeave x at_)).1 x = some .left :=
+  (SerfProofs.NodeObserver.down_step n x at_).2 h
+
+/-- the broken shape on the model: treating the death of a `leaving` member as a failure puts a graceful
+leaver on the failed list -/
+theorem C01_leaving_down_failed_counterexample :
+    let n := run (Node.init "a" {}) [.nodeJoin "x", .leaveMsg "x" 3 false 0]
+    statusOf n "x" = some .leaving ∧ statusOf (step n (.nodeLeave "x" 1)).1 "x" = some .left ∧
+    -- what C01-e computes instead: the alive branch
+    statusOf (step { n with members := ainsert n.members "x" { status := .alive, ltime := 3 } } (.nodeLeave "x" 1)).1 "x"
+      = some .failed := by decide
+
 end SerfProofs.C01
